@@ -14,7 +14,8 @@ from .. import coqio as q
 #   name : [base, [k, ...]]                       "traceback-1-2" = [0, [1, 2]]
 #   act  : ["detail", name, loc] | ["setcell", loc, v] | ["expect", [[name, loc], ...]]
 #        | ["assert", [[name, loc], ...]] | ["cleanup", tok, [act, ...]] | ["patch", attr, v]
-#        | ["fixture", {"tok","old","details":[[name,loc]],"cleanups":[[tok, exc|None]],"fail":exc|None}]
+#        | ["fixture", {"tok","old","details":[[name,loc]],"cleanups":[[tok, exc|None]],"fail":exc|None,
+#                       "bad": None | [k, exc]}]    bad (optional): evaluating the detail at position k of getDetails() raises exc
 #        | ["onexc", h] | ["force"] | ["xfailcall", r, exc|None] | ["raise", exc]
 #        | ["inserthandler", cls, outcome]        self.exception_handlers.insert(0, (cls, handler reporting outcome))
 #   prog : {"skip": None | [where, r], "xfail": bool, "setup": {"tok","acts","up"}, "body": {"tok","acts"},
@@ -126,6 +127,16 @@ class _Env:
         env = self
         return Content(ContentType("application", "octet-stream"), lambda: list(CHUNKS[env.cells.get(loc, 0)]))
 
+    def bad_content(self, e):
+        """a content whose evaluation raises (a log file that is gone when it is read)"""
+        from testtools.content import Content
+        from testtools.content_type import ContentType
+        env = self
+
+        def read():
+            raise env.exc(e)
+        return Content(ContentType("application", "octet-stream"), read)
+
 
 def _mismatch_matcher(env, mm):
     from testtools.matchers import Mismatch
@@ -149,6 +160,10 @@ def _make_fixture(env, f):
         env.log.append(["t", f["tok"]])
         for n, loc in f["details"]:
             self.addDetail(name_str(n), env.content(loc))
+        if f.get("bad"):
+            names = list(dict.fromkeys(name_str(n) for n, _ in f["details"]))     # positions in getDetails()
+            if f["bad"][0] < len(names):
+                self.addDetail(names[f["bad"][0]], env.bad_content(f["bad"][1]))  # replaced in place
         for tok, e in f["cleanups"]:
             def c(tok=tok, e=e):
                 env.log.append(["t", tok])
@@ -193,6 +208,13 @@ def _exec(env, case, acts):
             def h(exc_info, h=a[1]):
                 env.trace.append(["H", h, env.cls_name(exc_info[0])])
             case.addOnException(h)
+        elif k == "onexcraise":
+            # an addOnException handler that itself raises while the exception of class a[1] is processed
+            # (C02 only; not part of the Coq model: see c02.py)
+            def hr(exc_info, c=a[1]):
+                if exc_info[0] is env.cls(c):
+                    raise env.cls(HANDLER_ERROR)("raised by an addOnException handler")
+            case.addOnException(hr)
         elif k == "force":
             case.force_failure = True
         elif k == "xfailcall":
@@ -416,7 +438,8 @@ def t_nl(l):
 def t_fixture(f):
     return q.record([("fx_tok", q.nat(f["tok"])), ("fx_old", q.boolean(f["old"])), ("fx_details", t_nl(f["details"])),
                      ("fx_cleanups", q.lst([q.pair(q.nat(t), q.option(e, t_exc)) for t, e in f["cleanups"]])),
-                     ("fx_fail", q.option(f["fail"], t_exc))])
+                     ("fx_fail", q.option(f["fail"], t_exc)),
+                     ("fx_bad", q.option(f.get("bad"), lambda b: q.pair(q.nat(b[0]), t_exc(b[1]))))])
 
 
 def t_act(a):
@@ -574,7 +597,8 @@ def exc_kinds(e):
 
 def raising_acts(p):
     return [a for a in all_acts(p) if a[0] in ("raise", "assert", "xfailcall") or
-            (a[0] == "fixture" and (a[1]["fail"] is not None or any(e is not None for _, e in a[1]["cleanups"])))]
+            (a[0] == "fixture" and (a[1]["fail"] is not None or a[1].get("bad") is not None or
+                                    any(e is not None for _, e in a[1]["cleanups"])))]
 
 
 # ----------------------------------------------------------------------------
@@ -587,6 +611,8 @@ CUSTOM = ["Sub", "Exception", 1]        # custom Exception subclass (may get an 
 CUSTOMSUB = ["Sub", CUSTOM, 2]
 CUSTOMBASE = ["Sub", "BaseException", 3]  # custom BaseException subclass (may get an inserted handler)
 SUBMULTI = ["Sub", "Multi", 0]
+MARKER = ["Sub", "Exception", 9]         # raised by a test method / tearDown to make an "onexcraise" handler raise
+HANDLER_ERROR = ["Sub", "Exception", 8]  # what such a handler raises
 
 # the behaviours of the exhaustive core: what a stage does at its end
 BEHAVIOURS = {
@@ -654,6 +680,37 @@ def setup_force_programs(details=False):
             ("setup", fo[0], "skip-xfail-decorated")
 
 
+def xfail_programs():
+    """@unittest.expectedFailure on the test method: the body ends in every behaviour (what derives from
+    Exception becomes an expected failure, returning an unexpected success, KeyboardInterrupt / SystemExit /
+    GeneratorExit / custom BaseException subclasses pass through the wrapper), alone and with later stages raising"""
+    for name, beh in ALLB.items():
+        for td in ("return", "error", "skip", "kbd", "sysexit"):
+            yield mkprog(xfail=True, body=list(beh), teardown=list(ALLB[td])), (name, td, "-")
+            if td in ("return", "skip", "kbd"):
+                yield mkprog(xfail=True, setup=[["cleanup", 10, list(ALLB["fail"])]], body=list(beh),
+                             teardown=list(ALLB[td])), (name, td, "cleanup-fails")
+
+
+def badfx_programs():
+    """useFixture of a fixture one of whose details cannot be evaluated when it is gathered: set-up succeeding
+    (gathering is a cleanup of its own: it raises, the fixture's cleanUp still runs), failing old style and
+    failing new style; in setUp, the test and inside a cleanup; with patches and further cleanups around it"""
+    FXD, X = [5, []], [4, []]
+    for old in (False, True):
+        for fail in (None, E("ValueError"), E("Skip", 1)):
+            for k in (0, 1, 2):
+                for g in (E("ValueError", 1), E("Fail"), E("Kbd")):
+                    fx = {"tok": 20, "old": old, "details": [[FXD, 1], [X, 2]], "cleanups": [[21, None], [22, E("ValueError")]],
+                          "fail": fail, "bad": [k, g]}
+                    use = [["patch", 0, 7], ["cleanup", 10, []], ["fixture", fx], ["patch", 1, 6], ["cleanup", 11, []]]
+                    yield retoken(mkprog(body=[["detail", X, 3]] + use)), (old, fail, k, g[1], "body")
+                    if g[1] != "Fail":
+                        yield retoken(mkprog(setup=use, teardown=[["raise", E("Fail")]])), (old, fail, k, g[1], "setup")
+                        yield retoken(mkprog(setup=[["cleanup", 12, use]], body=[["raise", E("Skip", 2)]])), \
+                            (old, fail, k, g[1], "cleanup")
+
+
 def rand_exc(rng, depth=0):
     r = rng.random()
     if r < 0.12 and depth < 2:
@@ -669,10 +726,18 @@ def rand_name(rng):
                        [5, []], [5, [1]]])
 
 
-def rand_fixture(rng, details=True):
+def rand_fixture(rng, details=True, bad=False):
     style = rng.random()
     f = {"tok": 0, "old": style < 0.25, "details": [], "cleanups": [], "fail": None}
-    if details:
+    if bad:
+        # a separate generator so that the streams of the other features stay what they were
+        import random
+        r2 = random.Random(rng.random())
+        if r2.random() < 0.35:
+            f["details"] = [[rand_name(r2), r2.randint(0, 3)] for _ in range(r2.choice([1, 2, 3]))]
+            f["bad"] = [r2.randint(0, 2), E(r2.choice(["ValueError", "ValueError", "Fail", "Skip", "Kbd", CUSTOM]),
+                                           r2.choice([None, 1]))]
+    if details and not f.get("bad"):
         f["details"] = [[rand_name(rng), rng.randint(0, 3)] for _ in range(rng.choice([0, 1, 1, 2]))]
     for _ in range(rng.choice([0, 0, 1, 2])):
         e = None
@@ -697,7 +762,7 @@ def rand_acts(rng, depth, feats, p_raise=0.35, maxlen=3):
         elif r < 0.40 and "patch" in feats:
             acts.append(["patch", rng.randint(0, 2), rng.randint(1, 4)])
         elif r < 0.50 and "fixture" in feats:
-            acts.append(["fixture", rand_fixture(rng, "details" in feats)])
+            acts.append(["fixture", rand_fixture(rng, "details" in feats, "badfx" in feats)])
         elif r < 0.60 and "details" in feats:
             acts.append(["detail", rand_name(rng), rng.randint(0, 3)])
         elif r < 0.66 and "details" in feats:
@@ -795,6 +860,10 @@ def shrink_acts(acts):
             if f["cleanups"]:
                 yield re(["fixture", dict(f, cleanups=f["cleanups"][:-1])])
                 yield re(["fixture", dict(f, cleanups=[[t, None] for t, _ in f["cleanups"]])])
+            if f.get("bad"):
+                yield re(["fixture", dict(f, bad=None)])
+                if f["bad"][0] > 0:
+                    yield re(["fixture", dict(f, bad=[f["bad"][0] - 1, f["bad"][1]])])
             if f["details"]:
                 yield re(["fixture", dict(f, details=f["details"][:-1])])
             if f["old"]:
